@@ -326,7 +326,7 @@ func (d *Descriptor) readAsMapEntry(out Outputter, data []byte) (n int, err erro
 			// Field corresponding to index does not exist
 			n, err := plenccore.Skip(data[offset:], wt)
 			if err != nil {
-				return 0, fmt.Errorf("failed to skip field %d in %s: %w", index, d.Name, err)
+				return 0, wrapf(err, "failed to skip field %d in %s: ", index, d.Name)
 			}
 			offset += n
 			continue
@@ -359,7 +359,7 @@ func (d *Descriptor) readAsMapEntry(out Outputter, data []byte) (n int, err erro
 
 		n, err := elt.read(out, data[offset:fl])
 		if err != nil {
-			return 0, fmt.Errorf("failed reading field %d(%s) of %s. %w", index, elt.Name, d.Name, err)
+			return 0, wrapf(err, "failed reading field %d(%s) of %s. ", index, elt.Name, d.Name)
 		}
 		offset += n
 	}
@@ -398,7 +398,7 @@ func (d *Descriptor) readAsStruct(out Outputter, data []byte) (n int, err error)
 			// Field corresponding to index does not exist
 			n, err := plenccore.Skip(data[offset:], wt)
 			if err != nil {
-				return 0, fmt.Errorf("failed to skip field %d in %s: %w", index, d.Name, err)
+				return 0, wrapf(err, "failed to skip field %d in %s: ", index, d.Name)
 			}
 			offset += n
 			continue
@@ -422,7 +422,7 @@ func (d *Descriptor) readAsStruct(out Outputter, data []byte) (n int, err error)
 		out.NameField(elt.Name)
 		n, err := elt.read(out, data[offset:fl])
 		if err != nil {
-			return 0, fmt.Errorf("failed reading field %d(%s) of %s. %w", index, elt.Name, d.Name, err)
+			return 0, wrapf(err, "failed reading field %d(%s) of %s. ", index, elt.Name, d.Name)
 		}
 		offset += n
 	}
